@@ -39,7 +39,7 @@ theorem source_tie : Generated.C11.sourceHashes = Expected.C11.sourceHashes := b
 
 abbrev fx0 : Facts := Expected.C11.facts
 
-theorem good_expected : Good fx0 := ⟨rfl, rfl, by decide, by decide, by decide, by decide, by decide, rfl, rfl, rfl⟩
+theorem good_expected : Good fx0 := ⟨rfl, rfl, by decide, by decide, by decide, by decide, by decide, rfl, rfl, rfl, rfl, rfl⟩
 
 theorem good_generated : Good Generated.C11.facts := facts_tie ▸ good_expected
 
@@ -379,6 +379,45 @@ theorem session_with_main_continues (fuel : Nat) :
   · simp [lookup] at h
   · simp only [List.mem_singleton] at hb
     subst hb; decide
+
+/-! ### statements that start with a function literal (seed round 4)
+
+    `func() { s }()` starts with the token `func`: the incremental parser first takes the text for a
+    file of declarations, fails ("expected 'IDENT', found '{'"), and parses it again wrapped in main —
+    unless the first error is an incomplete input, which it never is. -/
+
+/-- **a text of statements is compiled as the body of main whatever its first token** -/
+theorem statement_text_is_body_of_main (fuel : Nat) (s : State) (it : Item) (tl : List Item)
+    (h : (it :: tl).all (·.isStmt) = true) : evalText fx0 fuel s (it :: tl) = evalChunk fx0 fuel .block s (it :: tl) :=
+  evalText_stmt fx0 good_expected fuel s it tl h
+
+def demoLit : List Item :=
+  [.var "total" (.num 0),
+   .func "add" ⟨none, [.set "total" (.bin .add (.glob "total") .arg)], .glob "total"⟩,
+   .stmt (.eval (.call "add" (.num 1))),
+   .stmt (.lit (.eval (.call "add" (.num 10)))),
+   .define "x" (.bin .mul (.glob "total") (.num 2)),
+   .stmt (.print 1 (.glob "x")),
+   .stmt (.set "x" (.call "add" (.num 0)))]
+
+/-- the seeded demo program is in the domain: every cut gives the whole program, in particular the
+    cut that makes the literal call the first statement of a longer text -/
+theorem literal_call_first_in_text :
+    Dom fx0 State.empty demoLit = true ∧
+    (evalPieces fx0 20 State.empty (split [3] demoLit)).r.out = [(1, 22)] ∧
+    (evalPieces fx0 20 State.empty (split [3] demoLit)).r.halt = none ∧
+    (evalWhole fx0 20 State.empty demoLit).r.out = [(1, 22)] := by decide
+
+theorem literal_call_every_cut (fuel : Nat) :
+    ∀ cuts, evalPieces fx0 fuel State.empty (split cuts demoLit) = evalWhole fx0 fuel State.empty demoLit :=
+  chunks_eq_whole fuel demoLit literal_call_first_in_text.1
+
+/-- without the second attempt, or if another error than the first could veto it, such a text is a syntax error -/
+theorem func_retry_needed :
+    (evalPieces { fx0 with funcRetry := false } 20 State.empty (split [3] demoLit)).r.halt = some .parse ∧
+    (evalPieces { fx0 with firstErrorDecides := false } 20 State.empty (split [3] demoLit)).r.halt = some .parse ∧
+    -- a function declaration after the literal call: the second attempt fails as well
+    (evalText fx0 20 State.empty [.stmt (.lit (.print 1 (.num 1))), .func "f" ⟨none, [], .num 1⟩]).r.halt = some .parse := by decide
 
 /-! the model is sensitive to the facts: with a mutated fact the session differs from the whole program -/
 
